@@ -133,6 +133,15 @@ fn reference19(t: &Tab19, call: &Call19, limit: u64) -> RefRes {
 }
 
 /// (evaluation over every offset, evaluation over the step offsets of the own demand only)
+pub const KNOWN_NONSTEP_IDLE: &str = "C07/maximum-at-non-step-offset-after-the-level-busy-window-ended";
+
+thread_local! {
+    /// set by reference19_both: every non-step offset whose bound exceeds the step-only maximum lies at
+    /// or after the completion bound of the preceding step offset (the busy window of the analysed
+    /// callback's level has ended there; the literal equation restarts from stale totals)
+    static NONSTEP_ALL_AFTER_COMPLETION: std::cell::Cell<bool> = const { std::cell::Cell::new(false) };
+}
+
 fn reference19_both(t: &Tab19, call: &Call19, limit: u64) -> (RefRes, RefRes) {
     let zero = |_: u64| 0u64;
     let _ = zero;
@@ -150,6 +159,9 @@ fn reference19_both(t: &Tab19, call: &Call19, limit: u64) -> (RefRes, RefRes) {
     let mut failing = vec![];
     let mut best_steps = 0;
     let mut failing_steps = vec![];
+    // (offset, bound, completion bound of the preceding step offset) for non-step offsets
+    let mut nonstep: Vec<(u64, Option<u64>, Option<u64>)> = vec![];
+    let mut last_step_completion: Option<u64> = None;
     for a in 0..=max_bw {
         let rhs = |r: u64| -> u64 {
             match call {
@@ -170,6 +182,9 @@ fn reference19_both(t: &Tab19, call: &Call19, limit: u64) -> (RefRes, RefRes) {
                 // the demand whose steps define the search space: own (+ prefix on the same curve)
                 if t.own[(a + 1) as usize] + t.prefix[(a + 1) as usize] > t.own[a as usize] + t.prefix[a as usize] {
                     best_steps = best_steps.max(r);
+                    last_step_completion = Some(a + r);
+                } else {
+                    nonstep.push((a, Some(r), last_step_completion));
                 }
                 if std::env::var("C07_DEBUG").is_ok() {
                     eprintln!("offset {} own(A+1)={} own_step={} r={} least_wcet(a+r)={}", a, t.own[(a + 1) as usize], t.own[(a + 1) as usize] > t.own[a as usize], r, t.own_least[(a + r) as usize]);
@@ -180,10 +195,16 @@ fn reference19_both(t: &Tab19, call: &Call19, limit: u64) -> (RefRes, RefRes) {
                 failing.push(a);
                 if t.own[(a + 1) as usize] + t.prefix[(a + 1) as usize] > t.own[a as usize] + t.prefix[a as usize] {
                     failing_steps.push(a);
+                    last_step_completion = None;
+                } else {
+                    nonstep.push((a, None, last_step_completion));
                 }
             }
         }
     }
+    // do all non-step offsets that beat the step-only result lie at / after the preceding step's completion bound?
+    let worse: Vec<&(u64, Option<u64>, Option<u64>)> = nonstep.iter().filter(|(_, r, _)| r.map(|r| r > best_steps).unwrap_or(true)).collect();
+    NONSTEP_ALL_AFTER_COMPLETION.with(|c| c.set(!worse.is_empty() && worse.iter().all(|(a, _, done)| done.map(|y| y <= *a).unwrap_or(false))));
     let all = if failing.is_empty() { RefRes::Ok(best) } else { RefRes::Div(failing) };
     let steps = if failing_steps.is_empty() { RefRes::Ok(best_steps) } else { RefRes::Div(failing_steps) };
     (all, steps)
@@ -276,6 +297,12 @@ fn check19(c: &Case19) -> CheckResult {
         // literal maximum over every offset can exceed the maximum over the step offsets the crate examines
         if !c.own.1.is_scalar() && exp != exp_steps && compare(name, got, &exp_steps, limit).is_ok() {
             return known_or_violation(KNOWN_NONSTEP, msg, out);
+        }
+        // known finding (second shape): the literal maximum lies at a non-step offset at or after the
+        // completion bound of the preceding step offset, i.e. where the busy window of the analysed
+        // callback's level has already ended and the crate (rightly) starts over at offset 0
+        if exp != exp_steps && compare(name, got, &exp_steps, limit).is_ok() && NONSTEP_ALL_AFTER_COMPLETION.with(|c| c.get()) {
+            return known_or_violation(KNOWN_NONSTEP_IDLE, msg, out);
         }
         return Err(msg);
     }
